@@ -450,6 +450,10 @@ class Engine:
             return ("fn", v.path)
         if v is None:
             return ("none",)
+        if hasattr(v, "pieces"):
+            return ("fmtargs", id(v))
+        if hasattr(v, "kind") and hasattr(v, "val"):
+            return ("fmtarg", v.kind, self.term(v.val))
         return ("?", repr(v))
 
     # ---------------------------------------------------------------- constraint handling
